@@ -28,10 +28,77 @@ Theorem C02_site_cascade_ends :
 Proof. intros. split; [apply site_cascade_ends|apply site_targets_nonneg]; assumption. Qed.
 Print Assumptions C02_site_cascade_ends.
 
-(* hence the total-site record is balanced whenever every zone's listed utilities sum to its targets (C03's conclusion) *)
+(* hence the total-site record is balanced whenever every zone's listed utilities sum to its targets (C03's conclusion).
+   The premises `dhu == sqh`, `dcu == sqc` are discharged -- to within the zonal closing errors, which is all that is true --
+   from data hypotheses by C02_total_site_balanced_from_data at the end of this file. *)
 Theorem C02_total_site_balanced :
   forall hot cold sqh sqc sqr qh_ts qc_ts dhu dcu,
   balanced hot cold sqh sqc sqr -> dhu == sqh -> dcu == sqc -> qh_ts - qc_ts == dhu - dcu ->
   balanced hot cold qh_ts qc_ts (site_Qr sqr sqh qh_ts).
 Proof. exact site_record_balanced. Qed.
 Print Assumptions C02_total_site_balanced.
+
+(* ---------------------------------------------------------------------------------------------------------------------- *)
+(* TOTAL-SITE BALANCE FROM DATA HYPOTHESES ONLY (proofs/ComposeSiteFeasible.v).  C03's conclusion is no longer a premise:    *)
+(* for the duties the model of get_utility_targets assigns on the output table of the model of get_GCC_without_pockets,      *)
+(* both zonal sums close to within 2 tol of the zone's targets (C07 + C04 demand columns + C03), so                           *)
+(*   - the total-process record (sums of the zonal targets, zonal recovery) is EXACTLY balanced for the site's streams,      *)
+(*   - the total-site record is balanced up to 2 n tol (n zones), and its targets are non-negative.                          *)
+(* zone_data: the data hypotheses on a zone, spelled out in C09_zone_data_means (props/C09.v): exact residual column, Robust  *)
+(* GCC with a pinch, utilities gridded on the output table, one extreme hot and one extreme cold utility, end points are rows. *)
+(* still assumed: those data hypotheses; the slack cannot be dropped without them (C02_exact_sum_refuted).                   *)
+(* ---------------------------------------------------------------------------------------------------------------------- *)
+From OP Require Import model.Stream model.Pockets model.Utility proofs.UtilityRows proofs.ComposeSiteBound proofs.ComposeSiteFeasible.
+
+Theorem C02_total_site_balanced_from_data :
+  forall w hus cus (zs : list zgcc) g,
+  let hu := site_hu hus cus zs in let cu := site_cu hus cus zs in
+  let hotS := flat_map zg_hot zs in let coldS := flat_map zg_cold zs in
+  let qh_ts := site_Qh w hu cu g in let qc_ts := site_Qc w hu cu g in
+  let qr_ts := site_Qr (zgsum zg_qr zs) (zgsum zg_qh zs) qh_ts in
+  0 < w -> (forall u, In u hus -> u_tmins u < u_tmaxs u) -> (forall u, In u cus -> u_tmins u < u_tmaxs u) ->
+  desc g -> g <> [] -> covers g (eps_all hu cu) -> gaps_ok w 0 g ->
+  Forall (zone_data hus cus) zs ->
+  balanced hotS coldS (zgsum zg_qh zs) (zgsum zg_qc zs) (zgsum zg_qr zs)
+  /\ Qabs ((qh_ts - qc_ts) - (duty coldS - duty hotS)) <= nq (List.length zs) * (2 * tol)
+  /\ Qabs (qr_ts - (duty hotS - qc_ts)) <= nq (List.length zs) * (2 * tol)
+  /\ 0 <= qh_ts /\ 0 <= qc_ts.
+Proof. exact site_record_balanced_from_gccs. Qed.
+Print Assumptions C02_total_site_balanced_from_data.
+
+(* per zone: what the data give -- both listed-utility sums within 2 tol of the zone's targets, and the zone's own record
+   (Qh = H_net[0], Qc = H_net[last], Qr = hot duty - Qc) exactly balanced *)
+Theorem C02_zone_sums_and_balance_from_data :
+  forall hus cus z, zone_data hus cus z ->
+  (zg_qh z - 2 * tol <= qsum (zg_dh hus cus z) /\ qsum (zg_dh hus cus z) <= zg_qh z
+   /\ Forall (fun q => 0 <= q) (zg_dh hus cus z) /\ List.length hus = List.length (zg_dh hus cus z))
+  /\ (zg_qc z - 2 * tol <= qsum (zg_dc hus cus z) /\ qsum (zg_dc hus cus z) <= zg_qc z
+      /\ Forall (fun q => 0 <= q) (zg_dc hus cus z) /\ List.length cus = List.length (zg_dc hus cus z))
+  /\ balanced (zg_hot z) (zg_cold z) (zg_qh z) (zg_qc z) (zg_qr z).
+Proof. exact zone_data_facts. Qed.
+Print Assumptions C02_zone_sums_and_balance_from_data.
+
+(* the exact premise of C02_total_site_balanced is FALSE of the model without such data hypotheses: rows 300.1 / 300 / 100,
+   pocket-free column [tol/2; tol/2; 0], one gridded hot utility 300..300.1: the heating demand tol/2 is below the entry test
+   of _target_utility, nothing is assigned, the listed hot utilities sum to 0 <> tol/2 = the zone's target *)
+Theorem C02_exact_sum_refuted :
+  let T := [3001 # 10; 300; 100] in let HA := [half_tol; half_tol; 0] in
+  di_duties tol T HA (sep_hot HA) (sep_cold HA) [mkUS 300 (3001 # 10) (1 # 10)] [] = ([0], [])
+  /\ ~ qsum [0] == List.hd 0 HA
+  /\ gridded_hot tol T (mkUS 300 (3001 # 10) (1 # 10)).
+Proof. exact exact_sum_refuted. Qed.
+Print Assumptions C02_exact_sum_refuted.
+
+(* non-vacuity: the two-zone site of C09_two_zones_with_recovery (hot stream 200->160 in zone 1, cold stream 100->130 in zone 2,
+   utilities 300 / 140 hot, 150 / 10 cold): total-process record (30, 40, 0), total-site record (0, 10, 30), stream duties
+   cold 30, hot 40: both records close the balance 30 - 40 exactly *)
+Theorem C02_two_zones_balanced :
+  let zs := [rz_z1; rz_z2] in
+  let hu := site_hu rz_hus rz_cus zs in let cu := site_cu rz_hus rz_cus zs in
+  let qh_ts := site_Qh act_window hu cu rz_g in let qc_ts := site_Qc act_window hu cu rz_g in
+  (zgsum zg_qh zs, zgsum zg_qc zs, zgsum zg_qr zs) = (30, 40, 0)
+  /\ (qh_ts, qc_ts, site_Qr (zgsum zg_qr zs) (zgsum zg_qh zs) qh_ts) = (0, 10, 30)
+  /\ (duty ([] ++ rz_c2), duty (rz_h1 ++ [])) = (30, 40)
+  /\ Qabs ((qh_ts - qc_ts) - (duty ([] ++ rz_c2) - duty (rz_h1 ++ []))) <= nq 2 * (2 * tol).
+Proof. exact two_zones_balanced. Qed.
+Print Assumptions C02_two_zones_balanced.
